@@ -25,9 +25,7 @@ broadcast use {num_bigint::of_int_bi, num_bigint::bi_of_int};
 //@ extract fn compose_paths from src/classic/clvm_tools/node_path.rs
 //@ canary swap_or_operands @<path_1 | (path_0 & mask)>@ => @<path_0 | (path_1 & mask)>@
 //@ canary shift_twice @<mask <<= 1;>@ => @<mask <<= 2;>@
-//@ sig r
-    requires bi(*path_0_) >= 1, bi(*path_1_) >= 1
-    ensures bi(r) == compose(bi(*path_0_), bi(*path_1_))
+//@ sigfile r contracts/compose_paths.sig
 //@ after stmt @<let mut temp_path>@
     let ghost mut k: nat = 0;
     proof { lemma2_to64(); }
